@@ -376,7 +376,7 @@ pub fn run_child_case(ctx: &Ctx, case: &ChildCase) -> Outcome {
 fn child_family() -> Vec<ChildCase> {
     let mut out = vec![];
     for auth in ["none", "db", "admin"] {
-        for (prefix, inner) in [("rp 1 ", "get k"), ("rp 1 ", "set k v"), ("rp 18446744073709551615 ", "unknown"), ("set k ", "v"), ("get ", "k"), ("keys ", "*"), ("; ", "get k")] {
+        for (prefix, inner) in [("rp 1 ", "get k"), ("rp 1 ", "set k v"), ("rp 18446744073709551615 ", "unknown"), ("set k ", "v"), ("get ", "k"), ("keys ", "*"), ("; ", "get k"), ("rp 1 \n", "get k"), ("rp 1 \n\n", "set k v"), ("rp 1 \r\n", "get k"), ("rp 1  ", "get k"), ("rp 1 \t", "get k")] {
             for depth in [2u32, 60, 300, 2000, 20_000] {
                 out.push(ChildCase { auth: auth.to_string(), prefix: prefix.to_string(), depth, inner: inner.to_string() });
             }
